@@ -136,7 +136,29 @@ type env struct {
 	// optional blocking hook run inside the tap (writer's goroutine)
 	gate atomic.Pointer[func(tunnelmesh.FrameEvent)]
 
+	openFails map[string]int
+
 	coq []string
+}
+
+// after two failed opens of one tunnel kind the remaining tunnels of that kind
+// are skipped (each would only wait for its timeout again)
+func (e *env) openFailed(kind string) {
+	e.kmu.Lock()
+	if e.openFails == nil {
+		e.openFails = map[string]int{}
+	}
+	e.openFails[kind]++
+	e.kmu.Unlock()
+}
+func (e *env) tooManyOpenFailures(kind string) bool {
+	e.kmu.Lock()
+	defer e.kmu.Unlock()
+	if e.openFails[kind] >= 2 {
+		e.c.Count("skipped-after-open-failures:" + kind)
+		return true
+	}
+	return false
 }
 
 func (e *env) keyCount() int {
@@ -329,7 +351,13 @@ func (e *env) payload(n int, canaries *[][]byte) []byte {
 	return b
 }
 
-func main() {
+// virtualTime, when set (test binary: main_test.go), runs the scenarios that
+// need a synctest bubble.
+var virtualTime func(e *env)
+
+func main() { runHarness() }
+
+func runHarness() {
 	c := vh.Start("C04")
 	defer c.Finish()
 	c.Res.Rule = "case = one tunnel (tcp, forward, shell, file, udp, icmp, udp close race) through two real transits x a script of application sends; " +
@@ -429,6 +457,12 @@ func main() {
 			run("udp-race", e.udpRace)
 		case "zero-byte-keys":
 			run("zero-byte-keys", e.zeroByteKeys)
+	run("held-open-ack", e.heldOpenAck)
+	if virtualTime != nil {
+		run("timed-out-open", func() { virtualTime(e) })
+	} else {
+		c.Note("built as a plain program: the virtual-time scenario (timed-out UDP open) was skipped")
+	}
 		case "ws-icmp-close":
 			run("ws-icmp-close", e.wsICMPCloseRace)
 		case "file-race":
@@ -471,6 +505,12 @@ func main() {
 	}
 	run("race-file-download", e.fileRace)
 	run("zero-byte-keys", e.zeroByteKeys)
+	run("held-open-ack", e.heldOpenAck)
+	if virtualTime != nil {
+		run("timed-out-open", func() { virtualTime(e) })
+	} else {
+		c.Note("built as a plain program: the virtual-time scenario (timed-out UDP open) was skipped")
+	}
 	run("ws-icmp-close", e.wsICMPCloseRace)
 	n := c.N(14, 120)
 	for i := 0; i < n; i++ {
@@ -777,10 +817,14 @@ func (e *env) udpSend(base uint64, b []byte) error {
 func (e *env) udpTunnel() {
 	a := e.mesh.Nodes[0].Agent
 	m, k0 := e.rec.mark(), e.keyCount()
-	ctx, cancel := context.WithTimeout(context.Background(), 30*time.Second)
+	if e.tooManyOpenFailures("udp") {
+		return
+	}
+	ctx, cancel := context.WithTimeout(context.Background(), 8*time.Second)
 	defer cancel()
 	base, err := a.CreateUDPAssociation(ctx, &net.UDPAddr{IP: net.IPv4(127, 0, 0, 1), Port: 40000})
 	if err != nil {
+		e.openFailed("udp")
 		e.c.Fail("tunnel-open-failed", "udp: "+err.Error(), nil)
 		return
 	}
@@ -795,6 +839,7 @@ func (e *env) udpTunnel() {
 		}
 		seen := e.rec.count(m, func(ev tunnelmesh.FrameEvent) bool { return ev.From == 1 && ev.To == 0 && ev.Type == fUDPDatagram })
 		if err := e.udpSend(base, b); err != nil {
+			e.openFailed("udp")
 			e.c.Fail("write-failed:udp", err.Error(), nil)
 			break
 		}
@@ -985,6 +1030,10 @@ func (e *env) icmpTap(ev tunnelmesh.FrameEvent) {
 		priv, pub := e.responderKeypair()
 		shared, err := crypto.ComputeECDH(priv, open.EphemeralPubKey)
 		if err != nil {
+			// the honest ingress always sends its ephemeral key: it was lost or damaged on the way
+			e.c.Fail("open-arrived-without-usable-key:icmp", fmt.Sprintf("the ICMP_OPEN reached the exit end with ephemeral key %x (%v): an exit would run this session unencrypted", open.EphemeralPubKey[:8], err), map[string]any{"kind": "icmp"})
+			oe := &protocol.ICMPOpenErr{RequestID: open.RequestID, ErrorCode: protocol.ErrGeneralFailure, Message: "no usable ephemeral key"}
+			go e.mesh.Inject(3, 2, 0x42, 0, ev.StreamID, oe.Encode())
 			return
 		}
 		key := crypto.DeriveSessionKey(shared, open.RequestID, open.EphemeralPubKey, pub, false)
@@ -1027,7 +1076,10 @@ func (e *env) icmpTunnel() {
 	e.imu.Lock()
 	e.icmpKey, e.icmpGot = nil, nil
 	e.imu.Unlock()
-	ctx, cancel := context.WithTimeout(context.Background(), 30*time.Second)
+	if e.tooManyOpenFailures("icmp") {
+		return
+	}
+	ctx, cancel := context.WithTimeout(context.Background(), 8*time.Second)
 	defer cancel()
 	// two ingress paths: the SOCKS5 ICMP association (CreateICMPSession /
 	// RelayICMPEcho) and the WebSocket ping session (OpenICMPSession)
@@ -1041,6 +1093,7 @@ func (e *env) icmpTunnel() {
 		sid, err = a.CreateICMPSession(ctx, net.IPv4(127, 0, 0, 1))
 	}
 	if err != nil {
+		e.openFailed("icmp")
 		e.c.Fail("tunnel-open-failed", "icmp: "+err.Error(), nil)
 		return
 	}
